@@ -34,7 +34,7 @@ SEEDS = ["2016-10-06T12:34:56.123456+05:30", "20161006T123456", "2016-10-06", "2
          "P1Y2M10DT2H30M/2008-05-11T15:30:00Z", "2016-10", "20161001T14", "2016-10-06T12:34:56Z", "2016-10-06T12:34:56,5-0330", "2016-280T12", "2016-10-06/2016-10-09",
          "T12:34:56+02:00", "1583-01-01", "9999-12-31T23:59:59.999999", "2016-10-06 12:34:56.789", "12:34", "2016-10-06 12:34", "2008-05-11T15:30:00Z/PT0S", "P0D/2008-05-11T15:30:00Z", "PT0S",
          # boundary spellings that ISO 8601 itself allows (end-of-day 24:00, leap second): near-valid neighbours of supported forms
-         "2016-10-06T24:00:00", "20161006T240000", "2016-10-06T24:00", "2016-12-31T23:59:60Z", "2016-02-29", "2016-366", "2015-W53-7"]
+         "2016-10-06T24:00:00", "20161006T240000", "2016-10-06T24:00", "2016-12-31T23:59:60Z", "2016-02-29", "2016-366", "2015-W53-7", "2020W537", "2020-W53"]
 SRC = os.path.realpath(os.path.join(env.REPO, "src", "pendulum"))
 DUR_RE = re.compile(r"^P[0-9YMWDTHS.,]+\Z")
 
@@ -82,6 +82,39 @@ def exact_duration(s):
     return int(g[2] or 0), int(g[3] or 0), rest * US
 
 
+DATE_FORMS = [
+    ("week", re.compile(r"^(\d{4})-?W(\d{2})(?:-?(\d))?(?=$|[T ])")),
+    ("ordinal", re.compile(r"^(\d{4})-?(\d{3})(?=$|[T ])")),
+    ("calendar", re.compile(r"^(\d{4})-(\d{2})-(\d{2})(?=$|[T ])")),
+    ("calendar", re.compile(r"^(\d{4})(\d{2})(\d{2})(?=$|[T ])")),
+]
+
+
+def written_date_mismatch(s, r, day_first=False):
+    """If s starts with a complete ISO week / ordinal / calendar date, the returned value must carry exactly those numbers (a week 54 or
+    day 367 that comes back as a date of the following year is 'computed from silently wrapped-around numbers').  Returns a message or None."""
+    if "/" in s or re.search(r"[T ]24", s):
+        return None
+    for form, rx in DATE_FORMS:
+        m = rx.match(s)
+        if not m:
+            continue
+        g = [int(x) if x is not None else None for x in m.groups()]
+        d = D.date(r.year, r.month, r.day)
+        if form == "week":
+            got, want = tuple(d.isocalendar())[:3], (g[0], g[1], g[2] if g[2] is not None else 1)
+        elif form == "ordinal":
+            got, want = (d.year, d.timetuple().tm_yday), (g[0], g[1])
+        else:
+            # day_first=True is the documented way to read the last two fields as day, month
+            # (an ISO-valid text is read as ISO; only text the ISO parser rejects is re-read with the day first)
+            got, want = (d.year, d.month, d.day), tuple(g)
+            if day_first and got == (g[0], g[2], g[1]):
+                return None
+        return None if got == want else f"{form} date written as {want} came back as {got}"
+    return None
+
+
 def looks_structured(s):
     return len(s) >= 4 and s[0] in "0123456789PT" and set(s) <= ALPHABET
 
@@ -103,6 +136,10 @@ def oracle(s, opts):
             raise Violation(f"parse({s!r}) returned an unsupported type {type(r).__name__}", bucket="bad-type:" + type(r).__name__)
         if opts.get("strict", True) and s != "now" and not set(s) <= ALPHABET:
             raise Violation(f"strict parse() accepted text outside the ISO 8601 alphabet: {s!r} -> {r!r}", bucket="strict-accepts-foreign-text")
+        if opts.get("strict", True) and isinstance(r, (Date, DateTime)):
+            bad = written_date_mismatch(s, r, bool(opts.get("day_first")))
+            if bad:
+                raise Violation(f"parse({s!r}) returned a value computed from wrapped-around numbers: {bad}", bucket="date-value", got=str(r))
         if isinstance(r, Duration) and not isinstance(r, Interval):
             ex = exact_duration(s)
             if ex is not None:
